@@ -150,6 +150,48 @@ func c04(args []string) int {
 }
 
 func c04RoundTrip(out *evid.Out, viol func(string, string, map[string]interface{})) {
+	n := c04RoundTripDefault(out, viol)
+	// the text forms are configurable (Level*Value, LevelFieldMarshalFunc): they must round-trip under
+	// every configuration, not only the default lower-case names
+	oldF := zerolog.LevelFieldMarshalFunc
+	oldVals := []string{zerolog.LevelTraceValue, zerolog.LevelDebugValue, zerolog.LevelInfoValue, zerolog.LevelWarnValue, zerolog.LevelErrorValue, zerolog.LevelFatalValue, zerolog.LevelPanicValue}
+	restore := func() {
+		zerolog.LevelFieldMarshalFunc = oldF
+		zerolog.LevelTraceValue, zerolog.LevelDebugValue, zerolog.LevelInfoValue, zerolog.LevelWarnValue = oldVals[0], oldVals[1], oldVals[2], oldVals[3]
+		zerolog.LevelErrorValue, zerolog.LevelFatalValue, zerolog.LevelPanicValue = oldVals[4], oldVals[5], oldVals[6]
+	}
+	configs := []struct {
+		name string
+		set  func()
+	}{
+		{"upper-casing LevelFieldMarshalFunc", func() {
+			zerolog.LevelFieldMarshalFunc = func(l zerolog.Level) string { return strings.ToUpper(l.String()) }
+		}},
+		{"custom Level*Value names", func() {
+			zerolog.LevelTraceValue, zerolog.LevelDebugValue, zerolog.LevelInfoValue, zerolog.LevelWarnValue = "TRC", "Dbg", "information", "WARNING"
+			zerolog.LevelErrorValue, zerolog.LevelFatalValue, zerolog.LevelPanicValue = "Err", "FATAL", "pnc"
+		}},
+		{"prefixing LevelFieldMarshalFunc", func() { zerolog.LevelFieldMarshalFunc = func(l zerolog.Level) string { return "L:" + l.String() } }},
+	}
+	for _, c := range configs {
+		c.set()
+		for i := -1; i <= 7; i++ {
+			l := zerolog.Level(i)
+			b, err := l.MarshalText()
+			var back zerolog.Level = 99
+			err2 := back.UnmarshalText(b)
+			got, err3 := zerolog.ParseLevel(zerolog.LevelFieldMarshalFunc(l))
+			n++
+			if err != nil || err2 != nil || back != l || err3 != nil || got != l {
+				viol("roundtrip-custom-names", fmt.Sprintf("%s: Level(%d) text %q -> UnmarshalText = %d (%v), ParseLevel = %d (%v)", c.name, i, b, back, err2, got, err3), nil)
+			}
+		}
+		restore()
+	}
+	out.Count("roundtrip_cases", n)
+}
+
+func c04RoundTripDefault(out *evid.Out, viol func(string, string, map[string]interface{})) int64 {
 	n := int64(0)
 	for i := -128; i <= 127; i++ {
 		l := zerolog.Level(i)
@@ -189,7 +231,7 @@ func c04RoundTrip(out *evid.Out, viol func(string, string, map[string]interface{
 	if w.n != 0 {
 		viol("disabled-written", "WithLevel(Disabled) was written", nil)
 	}
-	out.Count("roundtrip_cases", n)
+	return n
 }
 
 // ---- inertness by reflection ------------------------------------------------------------------------
